@@ -9,6 +9,12 @@ CLAIMED = {
  "C01": dict(cat="proof", tech="conditional constant propagation + value numbering of Scores.cm/pointwise_cm per configuration; sortedness typestate over construction sites",
    text="All 16 (configuration, cell) entries of the decision table derived from the source equal the documented counting rule in polynomial normal form (symbolic in scores and threshold, hence all order types), conservation is threshold-free, pointwise_cm's table equals the rule, every construction site that may skip sorting receives provably ascending arrays.",
    ref="DESIGN §4 C01"),
+ "C04": dict(cat="proof", tech="global value numbering of all metric functions over a symbolic matrix; polynomial normal form against the definition table; guarded-division guard/fill analysis",
+   text="Each of the 9 counts, 12 rates, 4 interval wrappers, binomial_ci, 10 aliases and 37 ConfusionMatrix methods is reduced to a closed term over the four cells and compared with its definition; complements, [0,1] range and the exact NaN locus are derived from the verified (numerator, denominator) pairs.",
+   ref="DESIGN §4 C04"),
+ "C05": dict(cat="other", tech="abstract evaluation of the accumulation loop (loop-carried array discipline), re-ordering comprehensions, the parametric one-vs-all iteration and the per-class decorator; role extraction from derived terms",
+   text="Decides the structural clauses: which datum feeds row/column/increment, both axes re-ordered by the requested class order with key-set checks, the four one-vs-all conservation identities for a parametric class j (incl. zero-initialised buffer), metric-on-one_vs_all and class axis of as_dict for all 34 decorated methods, accuracy = trace/population.",
+   ref="DESIGN §4 C05"),
 }
 PENDING = "check not built yet (build phase in progress)"
 checks, na = [], []
